@@ -3,7 +3,7 @@
    (AmqpModel.v) is tied to pkg/extensions/amqp by the correspondence check of tools/props/C05.py
    and, for the signature table, by the translator output gen/AmqpSigs.v. *)
 Require Import V.Base.Prelude V.Amqp.AmqpTypes V.Amqp.AmqpModel V.Amqp.AmqpSpec.
-Require Import V.Amqp.AmqpProofs V.Amqp.AmqpC01 V.Amqp.AmqpFrames V.Amqp.AmqpArgs V.Amqp.AmqpMethods V.Amqp.AmqpReport V.Amqp.AmqpSigsTie.
+Require Import V.Amqp.AmqpProofs V.Amqp.AmqpC01 V.Amqp.AmqpFrames V.Amqp.AmqpArgs V.Amqp.AmqpMethods V.Amqp.AmqpReport V.Amqp.AmqpStepReport V.Amqp.AmqpSigsTie.
 Local Open Scope N_scope.
 
 (* every field value the specification's encoder can write (all 14 types, nested to any depth)
@@ -49,30 +49,43 @@ Theorem C05_frame_roundtrip : forall f r tl, wf_frame f ->
   read_frame {| sdata := enc_frame f ++ r; stail := tl |} = (Ok f, {| sdata := r; stail := tl |}).
 Proof. exact read_frame_roundtrip. Qed.
 
-(* C05_report.  The full statement on the model is AmqpReport.C05_statement: for every pair of
-   sequences of well-formed frames in normal form (`AmqpSpec.normal`: no recorded finding class
-   is triggered - client-initiated requests with distinct pairing keys, no handshake methods,
-   every publish / deliver followed on its direction by its header and exactly one body frame of
-   1..512 bytes) both Dissect calls end cleanly and the items are exactly `AmqpSpec.spec_report`,
-   the report written from the property.
-   Proved (C05_report_partial): for ALL sequences of well-formed frames, normal form or not - any
-   number of channels interleaved, supported and unsupported methods, content, heartbeats,
-   protocol header - the two Dissect calls, client half first as the suite drives them, decode
-   every frame exactly and apply `step` (main.go's handling of one decoded frame, with the
-   matcher) to the abstract frames in order: nothing is misdecoded, skipped or decoded twice.
-   Proved (C05_statement_reduced): the full statement follows from `step_report_agree`, i.e. what
-   is missing is exactly that the fold of `step` over abstract frames in normal form equals
-   spec_report.  That remaining equation is evaluated by Coq (vm_compute, AmqpEq.spec_check) on
-   every normal-form conversation of every run, and its counterpart on the implementation is the
-   oracle of tools/props/C05.py. *)
-Theorem C05_report_partial : forall cfs sfs ct st_, Forall wf_frame cfs -> Forall wf_frame sfs ->
+(* C05_report: for every pair of sequences of well-formed frames in normal form - `AmqpSpec.normal`,
+   a syntactic condition under which no recorded finding class is triggered (the `excl` of
+   DESIGN.md 5.C05): client-initiated requests with distinct pairing keys, no handshake methods,
+   every content method followed on its direction, heartbeats apart, by its header and exactly
+   one body frame of 1..512 bytes; any number of channels, unsupported methods, heartbeats and
+   the protocol header in between - both Dissect calls (client half first, as the suite drives
+   them) end cleanly and the emitted items are exactly `AmqpSpec.spec_report`, the report written
+   from the property: one item per publish / deliver with its arguments, properties and body and
+   an empty response, one item per reply paired with the request of its channel.
+   Outside normal form the recorded findings apply (known/amqp.json); there C05_frames below
+   still says that every frame is decoded exactly and handled in order. *)
+Theorem C05_report : forall cfs sfs, Forall wf_frame cfs -> Forall wf_frame sfs -> normal cfs sfs = true ->
+  let '(oc, os, ms) := dissect_both true {| sdata := enc_frames cfs; stail := TEof |} {| sdata := enc_frames sfs; stail := TEof |} in
+  oc = OEof /\ os = OEof /\ map item_view (items ms) = spec_report cfs sfs.
+Proof. exact C05_statement_holds. Qed.
+
+(* for ALL sequences of well-formed frames, normal form or not, and every end-of-stream kind:
+   the two Dissect calls decode every frame exactly and apply `step` (main.go's handling of one
+   decoded frame, with the matcher) to the abstract frames in order - nothing is misdecoded,
+   skipped or decoded twice *)
+Theorem C05_frames : forall cfs sfs ct st_, Forall wf_frame cfs -> Forall wf_frame sfs ->
   dissect_both true {| sdata := enc_frames cfs; stail := ct |} {| sdata := enc_frames sfs; stail := st_ |} =
   (end_outcome ct, end_outcome st_,
    snd (run_frames false sfs (init_dstate, snd (run_frames true cfs (init_dstate, init_mstate))))).
 Proof. exact report_frames. Qed.
 
-Theorem C05_statement_reduced : step_report_agree -> C05_statement.
-Proof. exact statement_from_step. Qed.
+(* normal form is inhabited by conversations with every kind of item *)
+Example C05_normal_example :
+  let props := [Some (AShortStr [x74]); None; None; None; None; None; None; None; None; None; None; None; None; None] in
+  let cfs := [FrProto; FrMethod 1 50 10 [AShort 0; AShortStr [x71]; ABit false; ABit true; ABit false; ABit false; ABit false; ATable []];
+              FrMethod 2 60 40 [AShort 0; AShortStr [x65]; AShortStr []; ABit true; ABit false]; FrHeartbeat 0;
+              FrHeader 2 60 0 1 (flags_val props 15) props; FrBody 2 [x61]; FrMethod 1 60 80 [ALongLong 1; ABit false]] in
+  let sfs := [FrMethod 1 50 11 [AShortStr [x71]; ALong 0; ALong 0];
+              FrMethod 3 60 60 [AShortStr []; ALongLong 7; ABit false; AShortStr []; AShortStr []];
+              FrHeader 3 60 0 1 (flags_val props 15) props; FrBody 3 [x62]] in
+  normal cfs sfs = true /\ length (spec_report cfs sfs) = 3%nat.
+Proof. vm_compute. split; reflexivity. Qed.
 
 (* the hypotheses are satisfiable: a publish with content on channel 1 *)
 Example C05_wf_example :
